@@ -58,7 +58,10 @@ def do_verify(name):
     tmp = tempfile.mkdtemp(prefix='h263-seeded-')
     try:
         repo = os.path.join(tmp, 'repo')
-        shutil.copytree('/repo', repo, ignore=shutil.ignore_patterns('target', '.git'))
+        # the committed tree (a `check` of another seed may have its patch applied to /repo's working tree right now)
+        os.makedirs(repo)
+        subprocess.run('git -C /repo archive HEAD | tar -x -C %s' % repo, shell=True, check=True)
+        if os.path.exists('/repo/Cargo.lock'): shutil.copy('/repo/Cargo.lock', repo)
         env = {'CARGO_TARGET_DIR': os.path.join(tmp, 'target')}
         # demo on the original tree
         for rel in m['demo_files']:
